@@ -195,7 +195,8 @@ def run(ctx):
             opts = [dict(use_group_norm=True, activation="relu", use_bias="auto")]
             if (si == 0 and cls in ("ResNet", "ConvBlock")) or th:
                 opts.append(dict(use_group_norm=False, activation="gelu", use_bias="mean"))
-            if th:
+            if th or cls == "ConvBlock":
+                # every documented bias setting (the cheap single block carries them in the quick tier)
                 opts += [dict(use_group_norm=True, activation=None, use_bias=False), dict(use_group_norm=False, activation="callable", use_bias="scalar"), dict(use_group_norm=True, activation="relu", use_bias=True)]
             for op in opts:
                 s = dict(base, cls=cls, input=i, output=o, **op)
